@@ -1,3 +1,4 @@
+import Bandit.Proofs.Keywords
 import Bandit.Proofs.Crypto
 import Bandit.Plugins.CryptoGen
 import Bandit.Gen.Defaults
@@ -671,5 +672,24 @@ example : ∃ th, HasThresholds (genCfg "weak_cryptographic_key") th ∧
     assocGet genCryptoTables.pycFuncKeyType (callEnv rsaPath [] [("key_size", mkInt 512)]).qual = none := by
   obtain ⟨t, ht, _⟩ := thresholdsOk_spec gen_thresholds_ok
   exact ⟨t, ht, by decide +kernel, by decide +kernel⟩
+
+/-! ## A `**mapping` among the keywords hides nothing
+
+Every check of this family reads its decisive keyword by name (`timeout`, `verify`, `usedforsecurity`, `ssl_version`, `key_size`, `mpModel` …). -/
+
+/-- **keywords written after (or before) a `**mapping` expansion count as before**: inserting an expansion anywhere among the keywords of a call changes neither the
+value read for any name, nor whether the name is present, nor the verdict of a value test (seeded change C15-m18 stopped collecting keywords at the first expansion:
+`requests.get(url, **opts, verify=False)` lost its B501) -/
+theorem expansion_hides_no_keyword (c c' : CallView) (pre post : List Node) (star : Node) (x : PyVal) (name : String) (values : List PyVal)
+    (hk : c.keywords = pre ++ post) (hk' : c'.keywords = pre ++ star :: post) (hv : CallView.kwEntry star = .ok (none, x)) :
+    c'.argValue name = c.argValue name ∧ c'.hasKw name = c.hasKw name ∧ c'.checkArg name values = c.checkArg name values :=
+  ⟨CallView.argValue_ignores_expansion c c' pre post star x name hk hk' hv,
+   CallView.hasKw_ignores_expansion c c' pre post star x name hk hk' hv,
+   CallView.checkArg_ignores_expansion c c' pre post star x name values hk hk' hv⟩
+
+/-- non-vacuity: the keyword node of `**opts` is such a `star` -/
+example : CallView.kwEntry (Node.mk "keyword".toList none [] [("value".toList, false, [Node.mk "Name".toList (some ⟨1, 1, 0, 4⟩) [("id".toList, Atom.str "opts".toList)] []])])
+    = .ok (none, .str "opts".toList) := by
+  rfl
 
 end Props.C15
